@@ -580,6 +580,43 @@ fn c11_fraction_tops(r: &Runner) {
     }
     tops.sort();
     tops.dedup();
+    // at the thirds themselves: the full product of a 12-letter alphabet over the free limbs of BOTH the modulus and the
+    // operand (which shares the modulus' top limb), squaring only
+    {
+        const AL12: [u64; 12] = [0, 1, 2, (1 << 32) - 1, 1 << 32, (1 << 63) - 1, 1 << 63, (1 << 63) + 1, 0x5555_5555_5555_5555, 0xaaaa_aaaa_aaaa_aaaa, u64::MAX - 1, u64::MAX];
+        let thirds: Vec<u64> = { let a = ((1u128 << 64) / 3) as u64; let b = ((2u128 << 64) / 3) as u64; vec![a - 1, a, a + 1, b - 1, b, b + 1] };
+        for n in [2usize, 3] {
+            let bits = 64 * n;
+            let free: Vec<Limbs> = if n == 2 { AL12.iter().map(|x| vec![*x]).collect() } else { AL12.iter().flat_map(|x| AL12.iter().map(move |y| vec![*x, *y])).collect() };
+            let mut ms: Vec<Limbs> = vec![];
+            for &top in &thirds {
+                for f in &free {
+                    let mut m = f.clone();
+                    m[0] |= 1;
+                    m.push(top);
+                    ms.push(m);
+                }
+            }
+            ms.sort();
+            ms.dedup();
+            r.universe(&format!("N={n}: square_redc with the modulus' top limb at R/3, 2R/3 (+-1): {} moduli x {} operands sharing the top limb (12-letter alphabet on every free limb)", ms.len(), free.len()), bits, ms.len(), |i, l| {
+                let m = &ms[i];
+                let inv = neg_inv64(m[0]);
+                let bm = big(m);
+                for f in &free {
+                    let mut a = f.clone();
+                    a.push(m[n - 1]);
+                    if big(&a) >= bm {
+                        continue;
+                    }
+                    l.states(1);
+                    let sq_args = [vu(&a), vu(m), V::N(inv as u128)];
+                    exec(l, bits, Op::alg_square_redc, &sq_args);
+                    exec(l, bits, Op::uint_square_redc, &sq_args);
+                }
+            });
+        }
+    }
     for n in 2..=4usize {
         let bits = 64 * n;
         let mut ms: Vec<Limbs> = vec![];
